@@ -4,6 +4,7 @@ import IPT.Model.Range
 import IPT.Model.Qibla
 import IPT.Model.Bounded
 import IPT.Model.F64
+import IPT.Model.Fmt
 import IPT.Model.Cli
 import IPT.Model.CliDecode
 /- Line-protocol driver: the Float instance of the model, one request per line, one answer per
@@ -184,6 +185,12 @@ def unhex (s : String) : Option String :=
     | none => none)
   | _ => none
 
+/-- the UTF-8 bytes of a string, two hex digits per byte (the inverse of `unhex`, without the `x`) -/
+def hexOfString (s : String) : String :=
+  String.ofList (s.toUTF8.toList.flatMap fun (b : UInt8) =>
+    let ds := Nat.toDigits 16 b.toNat
+    List.replicate (2 - ds.length) '0' ++ ds)
+
 def hexOfBits (b : Nat) : String :=
   let ds := Nat.toDigits 16 (b % 2 ^ 64)
   String.ofList (List.replicate (16 - ds.length) '0' ++ ds)
@@ -356,6 +363,14 @@ def handle (toks : List String) : String :=
       | some x => "OK " ++ hexOf x
       | none => "ERR")
     | _, _ => bad
+  | ["fmt1", a] =>
+    match parseHex a with
+    | some a => hexOfString (F64.fmt1Abs a.toNat)
+    | none => bad
+  | ["qtext", a] =>
+    match parseHex a with
+    | some a => hexOfString (F64.qiblaText a.toNat)
+    | none => bad
   | ["f64cmp", a, b] =>
     match parseHex a, parseHex b with
     | some a, some b =>
